@@ -2,6 +2,7 @@
 (* Beyond the listed properties: the Display output of frames, messages and  *)
 (* pages recorded from the real code equals the documented formats.          *)
 (*   show {what: "frame"|"message"|"page", f | m | p, text}                  *)
+(*   show {what: "frameerr", kind, input, expected, actual, text}            *)
 EXTENDS Display, TraceBase
 VARIABLE l
 Init == l = 1
@@ -10,5 +11,6 @@ Show == /\ l <= NRec /\ l' = l + 1
         /\ CASE E.what = "frame" -> E.text = FrameText(E.f)
              [] E.what = "message" -> E.text = MessageText(E.m)
              [] E.what = "page" -> E.text = PageText(E.p)
+             [] E.what = "frameerr" -> E.kind # "other" /\ E.text = FrameErrText(E.kind, E.input, E.expected, E.actual)
 Spec == Init /\ [][Show]_l
 =============================================================================
